@@ -13,11 +13,11 @@ from .tla import tla, tla_set
 FIXED = set(filter(None, os.environ.get("VERIF_FIXED", "F3,F8,F10,F13").split(",")))
 
 HMIN, HMAX = 60000, 120000
-ROOTS = [77000, 91000]
+ROOTS = [77000, 115000]   # a low and a high bracketed root (high: within 5% of the maximum height)
 
 INVS = {
     "C01": ["FinalExcessNonPositive", "SelFeasibleOrEscape"],
-    "C02": ["HeightInBounds", "CapRespected", "UnmetPolicy1D", "UnmetPolicy", "UnmetPolicyRW", "OnlyValueError", "NeverUnreachable"],
+    "C02": ["HeightInBounds", "CapRespectedK", "UnmetPolicy1D", "UnmetPolicy", "UnmetPolicyRW", "OnlyValueError", "NeverUnreachable"],
     "C05": ["PredecessorFails", "FirstFeasibleIfMonotone", "NoLessDrillingEvaluated", "RootUnlessClamped"],
     "C12": ["ReportedIsLastSim", "LiveIsSelected"],
     "C20": ["FlowSplit"],
@@ -49,6 +49,9 @@ def rect_like(n):
 LISTS_A = [[1, 2, 4], [1, 3, 6]]
 LISTS_B = [[1, 2, 3, 6], [1, 2, 4, 8], [1, 3, 6, 12]]
 LISTS_C = [[1, 2], [1, 2, 3], [2, 4, 6, 9]]
+# bi-zoned domains are ONE list whose borehole count is a saw-tooth (line, L, U, C, then zoned rectangles per (n1, n2) pair)
+LISTS_Z = [[1, 2, 3, 5, 4, 6, 9, 7, 8, 12]]
+LISTS_Z2 = [[1, 2, 4, 3, 5], [2, 5, 4, 7, 6, 9]]
 
 
 def model_runs(mode: str, t: str):
@@ -88,6 +91,10 @@ def model_runs(mode: str, t: str):
         runs.append(("ZD-A-4val", cfgs, [-2, -1, 1, 2], 15, {}))
         cfgs = [{"lists": LISTS_B, "cap": c, "cont": ct, "flow": "SYSTEM"} for c in (0, 7) for ct in (False, True)]
         runs.append(("ZD-B-2val", cfgs, [-1, 1], 15, {}))
+        cfgs = [{"lists": LISTS_Z, "cap": c, "cont": ct, "flow": "BOREHOLE"} for c in (0, 8) for ct in (False, True)]
+        runs.append(("ZD-sawtooth-4val", cfgs, [-3, -2, -1, 1], 15, {}))
+        cfgs = [{"lists": LISTS_Z2, "cap": 0, "cont": ct, "flow": "BOREHOLE"} for ct in (False, True)]
+        runs.append(("ZD-sawtooth2-3val", cfgs, [-2, -1, 1], 15, {}))
         if t == "thorough":
             cfgs = [{"lists": LISTS_B, "cap": 0, "cont": ct, "flow": "BOREHOLE"} for ct in (False, True)]
             runs.append(("ZD-B-4val", cfgs, [-2, -1, 1, 2], 15, {}))
@@ -224,6 +231,10 @@ def gen_runs(t: str):
     runs.append(("ZD", "gZD-A", cfgs, [-2, -1, 1, 2] if t == "thorough" else [-2, -1, 1], 15, {}))
     cfgs = [{"lists": LISTS_B, "cap": 0, "cont": ct, "flow": "BOREHOLE"} for ct in (False, True)]
     runs.append(("ZD", "gZD-B", cfgs, [-1, 1], 15, {}))
+    cfgs = [{"lists": LISTS_Z, "cap": c, "cont": ct, "flow": "BOREHOLE"} for c in (0, 8) for ct in (False, True)]
+    runs.append(("ZD", "gZD-sawtooth", cfgs, [-3, -2, -1, 1], 15, {}))   # three distinct negative values: untied triples
+    cfgs = [{"lists": LISTS_Z2, "cap": 0, "cont": ct, "flow": "BOREHOLE"} for ct in (False, True)]
+    runs.append(("ZD", "gZD-sawtooth2", cfgs, [-2, -1, 1], 15, {}))
     cfgs = [{"lists": [], "cap": 0, "cont": ct, "flow": fl} for ct in (False, True) for fl in flows]
     runs.append(("RW", "gRW", cfgs, [-1, 1], 3, {"rwdev": 1}))
     runs.append(("RW", "gRW4", cfgs[:2], [-2, -1, 1, 2], 3, {"rwdev": 0, "rwcounts": (2, 3, 5)}))
@@ -240,7 +251,32 @@ def _replay_one(b):
         verdict = judge.judge(b["mode"], b["cfg"], rec["oracle"], rec)
         rows = judge.judge_rows(rec["rows"])
         verdict["LogRowConsistent"] = not rows
-        return (mm, rec["out"], verdict, rows)
+        out = rec["out"]
+        if rec["extended"]:
+            # the code asked questions this behaviour never asked: explore the other answers too (bounded)
+            queue = []
+            for key, opts in rec["oracle"].new_keys:
+                for o in opts[1:]:
+                    queue.append({key: o})
+            runs = 0
+            while queue and runs < 24:
+                ext = queue.pop(0)
+                runs += 1
+                r2 = doubles.run_behaviour(b, max_iter=b.get("max_iter"), ext=ext)
+                if r2["out"]["k"] == "diverge":
+                    continue
+                v2 = judge.judge(b["mode"], b["cfg"], r2["oracle"], r2)
+                v2["LogRowConsistent"] = not judge.judge_rows(r2["rows"])
+                for name, tv in v2.items():
+                    if tv is False and verdict.get(name) is not False:
+                        verdict[name] = False
+                        out = dict(r2["out"], oracle_extension={str(k): x for k, x in ext.items()})
+                for key, opts in r2["oracle"].new_keys:
+                    for o in opts[1:]:
+                        e2 = dict(ext)
+                        e2[key] = o
+                        queue.append(e2)
+        return (mm, out, verdict, rows)
     except MachineryError:
         raise
     except Exception as ex:  # noqa: BLE001
@@ -280,6 +316,8 @@ def generate_and_replay(chk: Check, invs: list[str], fixed=None, sample_cap: int
             key = (mode, b["branch"], b["outcome"]["k"], b["outcome"].get("type"), b["escape"], len(b["log"]))
             chk.nontrivial.add(key)
             falses = [i for i in invs if verdict.get(i) is False]
+            if verdict.get("F16_seen") and "CapRespectedK" in invs:
+                chk.violation("F16 on real code", None, known_key="F16")
             info = {"run": label, "mode": mode, "cfg": b["cfg"], "mismatch": mm, "false_invariants": falses,
                     "model_events": [(e["e"], e["f"], e.get("h"), e.get("v", e.get("oc"))) for e in b["log"]],
                     "model_outcome": b["outcome"], "code_outcome": out, "memo": b["memo"], "max_iter": b.get("max_iter"),
@@ -307,6 +345,7 @@ def crosscheck_mirrors(chk: Check):
     for mode, label, cfgs, vals, maxiter, rwp in [
         ("1D", "x1D", [{"lists": [nearsq(n)], "cap": c, "cont": ct, "flow": "BOREHOLE"} for n in (2, 4, 5) for c in (0, 5) for ct in (False, True)], [-2, -1, 1, 2], 15, {}),
         ("ZD", "xZD", [{"lists": LISTS_A, "cap": 0, "cont": ct, "flow": "BOREHOLE"} for ct in (False, True)], [-2, -1, 1], 15, {}),
+        ("ZD", "xZDz", [{"lists": LISTS_Z, "cap": 8, "cont": True, "flow": "BOREHOLE"}], [-2, -1, 1], 15, {}),
         ("RW", "xRW", [{"lists": [], "cap": 0, "cont": ct, "flow": "BOREHOLE"} for ct in (False, True)], [-1, 1], 3, {"rwdev": 1}),
     ]:
         mod, consts = mc_module(mode, cfgs, vals, maxiter, set(), **rwp)
@@ -319,6 +358,12 @@ def crosscheck_mirrors(chk: Check):
             ora = doubles.Oracle(b["memo"], lenient=False)
             ver = judge.judge(mode, b["cfg"], ora, judge.record_of_model(b))
             for name, tv in b["inv"].items():
+                if name == "CapRespected" and ver.get("_cap_equal"):
+                    continue      # the property allows count = cap, the model's selection rule never produces it
+                if name == "Known_F16":
+                    if ver["F16_seen"] != (tv and not b["inv"]["CapRespected"]):
+                        raise MachineryError(f"mirror of Known_F16 disagrees with TLC on {json.dumps(b)[:1200]}")
+                    continue
                 if name in ver and ver[name] != tv:
                     raise MachineryError(f"mirror of {name} disagrees with TLC ({ver[name]} vs {tv}) on {json.dumps(b)[:1500]}")
                 if not tv:
